@@ -499,6 +499,8 @@ pub fn explore_n<C, MK, J>(
             failure_persistence: None,
             rng_seed: RngSeed::Fixed(ctx.shard_seed(part, shard)),
             max_shrink_iters,
+            // real-time (wire) parts pass a small iteration budget; bound the wall time as well
+            max_shrink_time: if max_shrink_iters <= 256 { 90_000 } else { 0 },
             max_global_rejects: 1_000_000,
             ..Config::default()
         };
